@@ -20,12 +20,14 @@ class SimFS:
         self.handles = []
 
     # the seam: bec2format.bf3file.open = simfs.open
-    def open(self, path, mode="r", newline=None, **kw):
+    def open(self, path, mode="r", buffering=-1, encoding=None, errors=None, newline=None, **kw):
+        """as builtins.open for text files; encoding None = the platform default (UTF-8 here)"""
+        enc = encoding or "utf-8"
         if "b" in mode:
             raise ValueError("SimFS is a text-file seam")
         if mode.startswith("w"):
             self.trace.append(("open-w", path, newline))
-            h = SimTextWriter(self, path, newline, self.plan.get(path, {}))
+            h = SimTextWriter(self, path, newline, self.plan.get(path, {}), enc)
             self.files[path] = b""  # O_TRUNC
             self.handles.append(h)
             return h
@@ -33,7 +35,7 @@ class SimFS:
             if path not in self.files:
                 raise FileNotFoundError(errno.ENOENT, "No such file (simulated)", path)
             self.trace.append(("open-r", path, newline))
-            h = SimTextReader(self.files[path], newline)
+            h = SimTextReader(self.files[path], newline, enc, errors)
             self.handles.append(h)
             return h
         raise ValueError("unsupported mode " + mode)
@@ -47,7 +49,8 @@ class SimFS:
 
 
 class SimTextWriter:
-    def __init__(self, fs, name, newline, plan):
+    def __init__(self, fs, name, newline, plan, encoding="utf-8"):
+        self.encoding = encoding
         self.fs = fs
         self.name = name
         self.newline = newline
@@ -64,7 +67,7 @@ class SimTextWriter:
         if self.newline in ("\r\n", "\r"):
             s = s.replace("\n", self.newline)
         # newline None on POSIX / "" / "\n": no translation
-        return s.encode("utf-8")
+        return s.encode(self.encoding)
 
     def write(self, s):
         if self.closed:
@@ -122,7 +125,9 @@ class SimTextReader:
     """Read handle: decodes lazily (as a real text file does, errors surface
     from read calls), universal newlines unless newline="" was asked for."""
 
-    def __init__(self, data, newline=None):
+    def __init__(self, data, newline=None, encoding="utf-8", errors=None):
+        self.encoding = encoding
+        self.errors = errors or "strict"
         self.data = data
         self.newline = newline
         self._text = None
@@ -131,7 +136,7 @@ class SimTextReader:
 
     def _load(self):
         if self._text is None:
-            t = self.data.decode("utf-8")  # UnicodeDecodeError is a ValueError
+            t = self.data.decode(self.encoding, self.errors)  # UnicodeDecodeError is a ValueError
             if self.newline is None:
                 t = t.replace("\r\n", "\n").replace("\r", "\n")
             self._text = t
